@@ -11,3 +11,5 @@ LEVEL_TEXT = "Deductive proof of cutplace's share over abstract ElementTree obse
 LEVEL_NOTE = "Trusts zipfile / ElementTree through audited axioms, the pyvc encoding, z3/cvc5."
 TECHNIQUE = "contract-based deductive verification over an abstract XML datatype (VCs from the ast of the real generator, z3/cvc5) + bounded encoder-based audit"
 UNITS = [OD.unit_ods_rows(), VIO.unit_raw_rows(), OD.unit_ods_audit()]
+from contracts import storage as STO
+UNITS += [STO.unit_auto_rows().also("C15")]
